@@ -54,6 +54,26 @@ def order_preserved(ctx, crate, crs, tag):
         src = loop_like_source_fields(b, t["args"][2])
         ctx.ob(R, b.key, "variables-in-candidate-order", ok and "candidates" in src, where_call(b, i),
                "the stored variable lists are a map/collect of the task result's candidate lists (adaptors: %s)" % [n for n in names if n not in ("iter", "deref")][:6])
+        # ... and nothing edits them between their construction and the store (or afterwards): no `&mut` borrow of the local
+        vp = operand_place(t["args"][2])
+        holder = vp["l"] if vp is not None else None
+        cur = holder
+        for _ in range(4):
+            ds = b.defs_of(cur) if cur is not None else []
+            if len(ds) == 1 and ds[0][1] != "term" and ds[0][2]["k"] == "use" and operand_place(ds[0][2]["o"]) is not None \
+                    and "p" not in operand_place(ds[0][2]["o"]):
+                cur = operand_place(ds[0][2]["o"])["l"]
+            else:
+                break
+        chain_locals = {holder, cur}
+        muts = []
+        for bi, bj, bs in b.assigns():
+            r = bs["r"]
+            if r["k"] == "ref" and r.get("bk") == "mut" and r["p"]["l"] in chain_locals and not [e for e in r["p"].get("p", []) if e == "*"]:
+                muts.append(bs.get("line"))
+        ctx.ob(R, b.key, "variables-not-edited-after-construction", not muts, where_call(b, i),
+               "the per-version-set variable lists are stored exactly as they were built from the cached candidate lists%s" %
+               ((" (mutably borrowed at line %s)" % muts) if muts else ""))
         kd = b.origin(t["args"][1])
         ctx.ob(R, b.key, "stored-under-the-requirement", any(isinstance(e, dict) and e.get("n") == "requirement" for e in kd.get("proj", [])),
                where_call(b, i), "the lists are stored under the requirement they belong to")
